@@ -41,7 +41,8 @@ MAXK = 8
 
 
 def gen_case(rng, tier, index):
-    case = gen_rewrite.generate(rng, tier, align_lines=True)
+    case = gen_rewrite.generate(rng, tier, align_lines=True,
+                                 shared_blocks=index % 3 == 0)
     if rng.random() < 0.4:
         # alignment entries on input blocks (requirements that hold)
         case["align_seed"] = rng.randrange(1 << 30)
@@ -199,6 +200,43 @@ def zero_block_context(case, r, block):
     return ""
 
 
+def two_function_blocks(case):
+    seen, out = set(), set()
+    for f in case.get("funcs", []):
+        for b in set(f["blocks"]):
+            (out if b in seen else seen).add(b)
+    return out
+
+
+def shared_context(case, bu, items):
+    """(F64) the library files every block under ONE function; when a block
+    that two functions list is removed (deleted, or joined into the block in
+    front of it) only that one function's sets forget it.  The key carries
+    this context when the stale node is such a block and the table is one of
+    the two function tables; the round trip then differs in those tables."""
+    shared = {id(bu.blocks[b]) for b in two_function_blocks(case)
+              if b in bu.blocks}
+    out = []
+    stale = False
+    for item in items:
+        k = item[0]
+        if k in ("irsan:aux-node-detached:functionBlocks",
+                 "irsan:aux-node-detached:functionEntries") and \
+                len(item) > 2 and id(item[2]) in shared:
+            stale = True
+            out.append(("irsan:function-table-keeps-a-removed-block-of-two-"
+                        "functions", item[1]))
+        else:
+            out.append(item)
+    if stale:
+        out = [("irsan:protobuf-roundtrip-differs:function-table-keeps-a-"
+                "removed-block-of-two-functions", it[1])
+               if it[0] == "irsan:protobuf-roundtrip-differs" and all(
+                   "/aux/function" in p_ for p_ in it[1].split("', '"))
+               else it for it in out]
+    return out
+
+
 def bystander(r, viol, ctr, where):
     """the module of the same IR that the rewrite is not about: unchanged
     in every facet and still closed, whether apply() returned or raised"""
@@ -272,15 +310,15 @@ def run_case(case):
             else:
                 ctr["precondition_refusals"] = 1
             # whatever was left behind must still be closed
-            for item in irsan.sanitize(r.bu.module, state["snap"],
-                                       failure_path=True):
+            for item in shared_context(case, r.bu, irsan.sanitize(
+                    r.bu.module, state["snap"], failure_path=True)):
                 viol.append({"key": item[0] + ":after-apply-raised",
                              "msg": item[1]})
             return {"sig": None, "violations": viol, "counters": ctr}
         order = {id(bi): i for i, bi in enumerate(
             bi for row in r.bu.intervals for bi in row)}
-        for item in irsan.sanitize(r.bu.module, state["snap"],
-                                   interval_order=order):
+        for item in shared_context(case, r.bu, irsan.sanitize(
+                r.bu.module, state["snap"], interval_order=order)):
             k, m = item[0], item[1]
             if k == "irsan:undocumented-zero-sized-block":
                 k += zero_block_context(case, r, item[2])
@@ -309,8 +347,8 @@ def run_case(case):
                 m = fr.bu.module
                 ctr["failure_states_checked"] += 1
                 bystander(fr, viol, ctr, ":after-fault")
-                for item in irsan.sanitize(m, state["snap"],
-                                           failure_path=True):
+                for item in shared_context(case, fr.bu, irsan.sanitize(
+                        m, state["snap"], failure_path=True)):
                     viol.append({"key": item[0] + ":after-fault",
                                  "msg": f"k={k} {fk}: {item[1]}"})
                 if state["edges"] is not None:
